@@ -4,6 +4,7 @@ import (
 	"fmt"
 	"math/rand"
 	"reflect"
+	"strings"
 	"sync"
 
 	"verifharness/prog"
@@ -33,6 +34,7 @@ type Stats struct {
 	ViewShapes                                                     map[string]bool // distinct block shapes with >= 1 admitted Ethereum tx seen through the RPC views
 	GoMismatch                                                     int
 	Stuck                                                          []string
+	OwnGasBeforeEth                                                int   // executed Ethereum txs preceded in their block by a non-Ethereum tx that failed with code 11 from its own gas limit
 	BigBlocks                                                      []int // Ethereum txs per big block
 	BigCrashPoints                                                 int   // crash points enumerated inside big blocks
 }
@@ -99,6 +101,9 @@ func Drive(out *trace.W, o DriveOpts) Stats {
 					bigH = rb.H
 					st.BigBlocks = append(st.BigBlocks, nBig)
 				}
+			} else if !big && b%4 == 1 {
+				// failing Cosmos-lane txs (own-gas out of gas, funds, sequence, signature) before / between / after executing Ethereum txs
+				rb, txs, ok = g.MixedLaneBlock()
 			} else {
 				rb, txs, ok = g.NextBlock(o.MaxTxs)
 			}
@@ -107,9 +112,18 @@ func Drive(out *trace.W, o DriveOpts) Stats {
 			}
 			gens[rb.H] = txs
 			baseFees[rb.H] = bf
+			ownGas := false // a non-Ethereum tx that ran out of its own gas limit (code 11, block gas meter not involved) seen in this block
 			for i, t := range txs {
-				if t.Eth && rb.Res.TxResults[i].Code == 0 {
+				res := rb.Res.TxResults[i]
+				if t.Eth && res.Code == 0 {
 					indexedSomething = true
+					if ownGas {
+						st.OwnGasBeforeEth++
+						ownGas = false
+					}
+				}
+				if !t.Eth && res.Code == 11 && !strings.Contains(res.Log, "block gas") {
+					ownGas = true
 				}
 			}
 		}
